@@ -208,7 +208,7 @@ func NewBed(cfg BedConfig) (*Bed, error) {
 	pc := proxy.Config{
 		Version:           cfg.Version,
 		MaxVersion:        cfg.MaxVersion,
-		Resolver:          proxycore.NewResolverWithDefaultPort([]string{b.Cluster.ContactPoint()}, b.Cluster.Port),
+		Resolver:          proxycore.NewResolverWithDefaultPort(b.Cluster.ContactPoints(), b.Cluster.Port),
 		ReconnectPolicy:   b.Policy,
 		NumConns:          cfg.NumConns,
 		Logger:            cfg.Logger,
